@@ -121,7 +121,37 @@ class Servers:
         return out, unp, p.returncode, (p.stdout.decode(errors="replace") + err)[-600:]
 
     # ---------------------------------------------------------------- (b) dulwich TCP server
-    def run_dulwich(self, case):
+    def push_dulwich_client(self, desc):
+        """dulwich's own TCP client against the same server: TraditionalGitClient.send_pack,
+        _handle_receive_pack_tail and ReportStatusParser end to end."""
+        from dulwich.client import TCPGitClient
+        from dulwich.errors import GitProtocolError, SendPackError
+        from dulwich.pack import pack_objects_to_data
+        fx = L.fixture()
+        new_refs = {L.REFNAMES[c["r"] - 1]: fx.sha[c["new"]] for c in desc["cmds"]}
+
+        def update_refs(old):
+            return dict(new_refs)
+
+        def gen(have, want, ofs_delta=False, progress=None):
+            return pack_objects_to_data([(o, None) for i in sorted(desc["pack"]) for o in fx.objs[i]])
+        n = len(desc["cmds"])
+        try:
+            res = TCPGitClient("127.0.0.1", port=self.port).send_pack(b"/x", update_refs, gen, atomic="atomic" in desc["caps"])
+        except SendPackError as e:
+            return ["-"] * n, "fail", 1, str(e)[:200]
+        except GitProtocolError as e:
+            return ["-"] * n, "fail", 1, type(e).__name__ + ":" + str(e)[:200]
+        status = res.ref_status
+        if status is None:
+            return ["-"] * n, "none", 0, ""
+        st = []
+        for c in desc["cmds"]:
+            name = L.REFNAMES[c["r"] - 1]
+            st.append("-" if name not in status else ("ok" if status[name] is None else "ng"))
+        return st, "ok", 0, repr(status)[:300]
+
+    def run_dulwich(self, case, client="git"):
         from dulwich.repo import Repo
         L.install()
         descs = case["push"]
@@ -138,7 +168,10 @@ class Servers:
             if len(descs) > 1:
                 repo.hooks["pre-receive"] = RacerHook(rec, repo, descs[1]["cmds"][0])
             self.backend.repo = repo
-            st, unp, rc, text = self.push(f"git://127.0.0.1:{self.port}/x", descs[0])
+            if client == "git":
+                st, unp, rc, text = self.push(f"git://127.0.0.1:{self.port}/x", descs[0])
+            else:
+                st, unp, rc, text = self.push_dulwich_client(descs[0])
             rec.log({"p": 1, "op": "done", "unp": unp, "st": st, "err": "" if rc == 0 else f"rc={rc}", "rest": 0,
                      "refs": rec.refs_now(), "store": rec.store_now()})
         finally:
@@ -146,7 +179,7 @@ class Servers:
             repo.close()
             L._ACTIVE.pop(rec.root, None)
             shutil.rmtree(root, ignore_errors=True)
-        return {"refs0": list(case["refs0"]), "store0": sorted(case["store0"]), "push": descs, "ev": rec.ev, "via": "git",
+        return {"refs0": list(case["refs0"]), "store0": sorted(case["store0"]), "push": descs, "ev": rec.ev, "via": client,
                 "layout": case.get("layout", "loose"), "git_output": text}
 
     # ---------------------------------------------------------------- (a) C git's own receive-pack
@@ -239,25 +272,28 @@ def run(ctx, judge, tpl, behs_ref, behs_code):
             if got not in ref.get(k, set()):
                 raise MachineryError(f"specification disagrees with C git (spec defect, not a verdict on dulwich): case={k} "
                                      f"git={got} spec={sorted(ref.get(k, set()))} output={text!r}")
-            # (b) dulwich behind the same client
-            tr = S.run_dulwich(case)
-            nd += 1
-            tr["label"] = "git-tcp"
-            judge.add("git-tcp", tr)
-            ctx.count()
-            done = [e for e in tr["ev"] if e["op"] == "done" and e["p"] == 1][-1]
-            ops = tuple((e["p"], e["i"], e["pre"], e["post"]) for e in tr["ev"] if e["op"] == "refop")
-            got = ((done["unp"], tuple(done["st"]), tuple(done["refs"])), ops)
-            ctx.nontrivial(("git-tcp", k, got))
-            if got not in code.get(k, set()):
-                ctx.drift_event(f"git-tcp: dulwich behind C git behaves in a way RecvPack does not allow: case={k} real={got} "
-                                f"spec={sorted(code.get(k, set()), key=repr)[:3]} git said {tr['git_output']!r}")
+            # (b) dulwich behind the same client, and behind dulwich's own TCP client
+            for client in ("git", "dulwich"):
+                tr = S.run_dulwich(case, client)
+                nd += 1
+                label = client + "-tcp"
+                tr["label"] = label
+                judge.add(label, tr)
+                ctx.count()
+                done = [e for e in tr["ev"] if e["op"] == "done" and e["p"] == 1][-1]
+                ops = tuple((e["p"], e["i"], e["pre"], e["post"]) for e in tr["ev"] if e["op"] == "refop")
+                got = ((done["unp"], tuple(done["st"]), tuple(done["refs"])), ops)
+                ctx.nontrivial((label, k, got))
+                if got not in code.get(k, set()):
+                    ctx.drift_event(f"{label}: dulwich behind this client behaves in a way RecvPack does not allow: case={k} real={got} "
+                                    f"spec={sorted(code.get(k, set()), key=repr)[:3]} client said {tr['git_output']!r}")
         if S.errors:
             ctx.drift_event(f"git-tcp: the TCP server's handler raised: {S.errors[:3]}")
     finally:
         S.close()
     ctx.sample({"kind": "git-tcp", "case": json.loads(keys[len(keys) // 2]), "events": tr["ev"][-3:]}, limit=8)
-    ctx.log(f"C git: {ngit} pushes to git's own receive-pack agree with the repaired specification; {nd} pushes to a dulwich TCP server recorded")
+    ctx.log(f"C git: {ngit} pushes to git's own receive-pack agree with the repaired specification; {nd} pushes (C git and dulwich's "
+            f"TCP client) to a dulwich TCP server recorded")
 
 
 def L_case_key(beh):
@@ -269,6 +305,7 @@ def L_case_key(beh):
 def rerun(ctx, tpl, tr0):
     S = Servers(ctx, tpl)
     try:
-        return S.run_dulwich({"refs0": tr0["refs0"], "store0": tr0["store0"], "push": tr0["push"], "layout": tr0.get("layout", "loose")})
+        return S.run_dulwich({"refs0": tr0["refs0"], "store0": tr0["store0"], "push": tr0["push"], "layout": tr0.get("layout", "loose")},
+                             tr0.get("via", "git"))
     finally:
         S.close()
